@@ -6,6 +6,13 @@ use std::time::Duration;
 
 pub static TIMEOUTS: AtomicUsize = AtomicUsize::new(0);
 
+/// once this many cases have run into their wall-clock budget the harness stops generating new cases: the hangs it has
+/// already recorded decide the check, and every further hang would cost another budget (plus a spinning thread)
+pub const MAX_TIMEOUTS: usize = 8;
+pub fn give_up() -> bool {
+    TIMEOUTS.load(Ordering::SeqCst) >= MAX_TIMEOUTS
+}
+
 pub fn quiet_panics() {
     std::panic::set_hook(Box::new(|_| {}));
 }
